@@ -262,7 +262,7 @@ def sec_word(sec) -> str:
     parts = []
     for lo, hi, dst in entries:
         if isinstance(dst, list):
-            parts.append(lo.hex() + ":" + hi.hex() + ":[" + ",".join(d.hex() for d in dst) + "]")
+            parts.append(lo.hex() + ":" + hi.hex() + ":[" + ",".join(C.hx(d) for d in dst) + "]")
         else:
             parts.append(lo.hex() + ":" + hi.hex() + ":" + dst.hex())
     return "R:" + ";".join(parts)
@@ -756,7 +756,7 @@ def tounicode_outcome(sections) -> Tuple[str, str, Dict[str, bool]]:
 
 
 def in_domain(flags) -> bool:
-    return not (flags["quirk"] or flags["overflow"] or flags["invalid_utf16"] or flags["lenmismatch"])
+    return not (flags["quirk"] or flags["overflow"] or flags["lenmismatch"])
 
 
 def check_tounicode(ctx: C.Ctx, b: Batch, sections, origin="gen") -> None:
@@ -797,7 +797,7 @@ def parse_sec_word(w: str):
             ents.append((bytes.fromhex(f[0]), bytes.fromhex(f[1])))
         elif f[2].startswith("["):
             inner = f[2][1:-1]
-            ents.append((bytes.fromhex(f[0]), bytes.fromhex(f[1]), [bytes.fromhex(x) for x in inner.split(",")] if inner else []))
+            ents.append((bytes.fromhex(f[0]), bytes.fromhex(f[1]), [bytes.fromhex(x) if x != "-" else b"" for x in inner.split(",")] if inner else []))
         else:
             ents.append((bytes.fromhex(f[0]), bytes.fromhex(f[1]), bytes.fromhex(f[2])))
     return (kind, ents)
@@ -865,6 +865,14 @@ def elems_words(elems) -> str:
     return " ".join(welem_word(e) for e in elems) if elems else "-"
 
 
+def elems_words_norm(elems) -> str:
+    """As elems_words, but values inside a list carry no int/float flag (integral values print as ints)."""
+    def nw(x):
+        return "i%d" % int(x) if F(x).denominator == 1 else "f" + C.frac_str(F(x))
+    return " ".join(("l:" + ";".join(nw(x) for x in e)) if isinstance(e, list) else welem_word(e)
+                    for e in elems) if elems else "-"
+
+
 def run_widths(ctx: C.Ctx) -> None:
     from pdfminer import pdffont
     rng = ctx.rng
@@ -888,7 +896,7 @@ def run_widths(ctx: C.Ctx) -> None:
             words = " ".join((w2ent_word if vertical else went_word)(x) for x in ents) or "-"
             spec = spec_widths2(ents) if vertical else spec_widths(ents)
             spec_out = wmap_line({k: ((v[0], (v[1], v[2])) if vertical else v) for k, v in spec.items()})
-            b.twin(op + ".render", f"{op}spec.toks {words}", "T " + elems_words(elems), inp)
+            b.twin(op + ".render", f"{op}spec.toks {words}", "T " + elems_words_norm(elems), inp)
             b.twin(op + ".spec", f"{op}spec.map {words}", spec_out, inp)
             for en in ents:
                 ctx.branch(op + "ent:" + en[0] + (":cid0" if en[1] == 0 else ""))
